@@ -10,7 +10,7 @@ CONSTANTS
   MaxQ = 2
   MaxId = 1
   KaVals = {0}
-  EndKinds = {"eof", "wfail"}
+  EndKinds = {"eof", "stall"}
   Frames <- MCFrames
 SPECIFICATION MacroSpec
 VIEW View
